@@ -14,10 +14,10 @@ SPEC = {
             '(multi-parameter and variadic matching belong to C04); In is compared with the library\'s own Equals answers',
     'jobs': [{'bin': 'c18', 'shards': 4}],
     'rule': 'engine E. kinds: int8 int16 int32 int64 int uint8 uint16 uint32 uint64 uint uintptr float32 float64 string bool '
-            'struct{A int; b string} [2]int struct{*int} struct{interface{}} [2]*int [1]interface{} []int map[string]int *int *struct interface{} func(int) int; domains: min, -1, 0, 1, max-1, '
+            'struct{A int; b string} [2]int struct{*int} struct{interface{}} [2]*int [1]interface{} []int map[string]int *int *struct interface{} error func(int) int; domains: min, -1, 0, 1, max-1, '
             'max (+ 2^53, 2^53+1, 2^63 where they fit); +-Inf, +-max, smallest subnormal, 0.1+0.2, 0.3, 0.1, 1; "", "0", "1", "1.0", "0x1", '
             '" 1", "true", "false", case and unicode-normalisation variants; nil / empty / equal-but-distinct composites and pointers; '
-            'interface{} holding nil, ints of several widths, floats, strings, bools, structs; nil, F1, F2. cases: equals = all ordered '
+            'interface{} / error holding nil, ints of several widths, floats, strings, bools, structs, pointers (equal-but-distinct pointees) and typed nil pointers; nil, F1, F2. cases: equals = all ordered '
             'pairs; equals-nil = untyped nil pattern x every value of a nilable kind; any = every value; mutate = (pointer, slice, map kinds) every triple (x,a,b): one container holding a, evaluated by Equals(x)/In(x)/ToExpr(x), rewritten in place to b and evaluated again by the same expression; in = every subset of size 0..3 '
             '(0..4 thorough) x every value. evaluations = states = cases (distinct by construction); transitions = Resolve/Eval/ToExpr '
             'calls on the real library (each case: fresh expressions evaluated twice, the reverse direction, and a long-lived expression); '
